@@ -211,6 +211,12 @@ def lattice_cases(tier, seed):
         for ps_ in ("greens", "fastdiag"):
             for dt_ in ("float64", "float32"):
                 out.append(dict(cfg={"kind": "ns3d", "dtype": dt_, "forcing": True, "stream": True, "filter": filt, "poisson": ps_, "shape": SHAPES[3][1], "width": 3}, state="generic", velocity="generic", forcing="generic", steps=2, seed=seed))
+    # the combination that exposed the clock defect fixed in 48a4f0d (three deviations: precision, initial time, numpy-typed
+    # dt), kept in every tier
+    if tier != "dev1":
+        for kind in kinds:
+            cfg = {"kind": kind, "dtype": "float32", "params": PARAMS[0], "shape": kinds[kind]["shape"][0], "time0": 3.7}
+            out.append(dict(cfg=cfg, state="generic", velocity="generic", forcing="none", steps=2, seed=seed, arg_types="real_t"))
     # grids that are LONG along one axis (each axis in turn): blocked / slab-wise sweeps and chunked loops only show
     # beyond their block size
     if tier != "dev1":
